@@ -82,6 +82,7 @@ def oracle(prog, s, cl, raw):
     if m: return 'harness check failed: ' + m.group(0)
     m = re.search(r'^(\d+) UAF (\S+)', raw, flags=re.M)
     if m and m.group(2).startswith('E'): return 'thread %s accessed %s: a node that was deleted, waited a grace period for and released by its owner is still reachable' % (m.group(1), m.group(2))
+    if m and not m.group(2).startswith('tb'): return 'thread %s accessed %s: the table descriptor (or a work item) had already been released by cds_lfht_destroy while the resize worker was still using it' % (m.group(1), m.group(2))
     if m: return 'thread %s accessed %s inside a bucket table that had already been released (free after too few grace periods)' % (m.group(1), m.group(2))
     if re.search(r'Assertion|ABORT', raw): return 'assertion failure inside the library: ' + raw[-300:]
     ev = events(raw)
